@@ -1,9 +1,170 @@
-import QP.Model.C05
-/-! Property theorems for C05 (compilation options never change what is played). -/
+import QP.Proofs.C05Compile
+/-!
+# Property theorems for C05 — compilation options never change what is played
+
+Full statement of the property (for the record):
+
+  `collapse_invariant` — for every template tree `pt`, context and `to_single_waveform` sets `S S'`: duration,
+  measurement windows (as multisets) and every sample on `[0, duration)` of `compile pt {ctx with single := S}` and
+  of `compile pt {ctx with single := S'}` agree;
+  `global_trafo` — `sample (compile pt {ctx with trafo := T}) c t = T applied to (sample (compile pt {ctx with
+  trafo := []}))` for every chain `T`.
+
+Both are FALSE of the code as it is (open findings PF-11 and PF-04-junction, `*_counterexample` below), so they
+are proved as `_partial` theorems for all trees under the hypothesis `cleanW` (the complement of the two finding
+classes, see `QP/Model/C05.lean`) and under output-checkable side conditions:
+
+* `nnI J`   — the DEFAULT program (no collapsing) plays no waveform of negative duration (`FunctionPT` may have
+  a negative duration expression; then collapsing really changes what is played);
+* `tidyI c I` — in collapsed waveforms the pieces of a sequence have non-negative durations and agree on whether
+  they define the channel `c` (vacuous if nothing is collapsed);
+* the compilations compared succeed (a collapsed part can fail where the uncollapsed does not, e.g. on pieces
+  with different channel sets: `SequenceWaveform.__init__` raises).
+
+The theorems are per channel `c`: `allLeaves (·.channels.contains c)` says that every played waveform defines `c`.
+-/
 namespace QP.Props.C05
 open QP.PT QP.C05
 
-/-- placeholder while the development is in progress: an unnamed reversal is undone by the helper -/
-theorem withTimeReversal_unnamed (p : PT) : withTimeReversal (.timeReversal none p) = p := rfl
+/-! ## own lemmas: `to_waveform` and `new_subprogram` -/
+
+/-- `to_waveform(program)` lasts as long as the program (all trees; repetition counts ≥ 1 as the builder
+guarantees) -/
+theorem toWaveform_duration (l : Loop) (w : Wf) (h : l.toWaveform = .ok w) (hp : posReps l = true)
+    (hl : allLeaves cst l = true) : w.duration = l.duration :=
+  (toWaveform_TW l w h hp hl).dur
+
+/-- `to_waveform(program)` samples what the program plays, strictly inside `[0, duration)` -/
+theorem toWaveform_sample (l : Loop) (w : Wf) (c : Chan) (h : l.toWaveform = .ok w) (hp : posReps l = true)
+    (hl : allLeaves cst l = true) (ht : tidy c w = true) (hc : w.channels.contains c = true)
+    (t : Rat) (h0 : 0 ≤ t) (h1 : t < l.duration) : w.sample c t = l.sample c t :=
+  ((toWaveform_TW l w h hp hl).rest c ht).2.2 hc t h0 h1
+
+/-- `to_waveform(program)` defines a channel iff every played waveform does -/
+theorem toWaveform_channels (l : Loop) (w : Wf) (c : Chan) (h : l.toWaveform = .ok w) (hp : posReps l = true)
+    (hl : allLeaves cst l = true) (ht : tidy c w = true) :
+    w.channels.contains c = allLeaves (fun x => x.channels.contains c) l :=
+  ((toWaveform_TW l w h hp hl).rest c ht).2.1
+
+/-- `new_subprogram`: the windows the collapsed part contributes to ANY parent loop are those of its items -/
+theorem windows_flatten (rep : Nat) (meas : List Window) (cs : List Loop) (I0 : List Item) (root : Loop) (w : Wf)
+    (hroot : toProgram I0 = some root) (hw : w.duration = root.duration) :
+    ((Loop.mk rep none meas cs).applyItems [Item.measure root.windows, Item.node (leaf w)]).windows.Perm
+      ((Loop.mk rep none meas cs).applyItems I0).windows := by
+  rw [toProgram_eq] at hroot
+  have hne : itemsNodes I0 ≠ [] := by
+    intro e; simp [e] at hroot
+  have he : (itemsNodes I0).isEmpty = false := by simpa using hne
+  simp only [he, Bool.false_eq_true, if_false, Option.some.injEq] at hroot
+  subst hroot
+  rw [applyItems_eq, applyItems_eq, Loop.windows, Loop.windows, bodyDuration_none, bodyDuration_none]
+  have hd : Loop.durationList (cs ++ itemsNodes [Item.measure (rootOf I0).windows, Item.node (leaf w)]) =
+      Loop.durationList (cs ++ itemsNodes I0) := by
+    rw [durationList_append, durationList_append]
+    simp only [itemsNodes, Loop.durationList, leaf_duration, hw, rootOf_duration, itemsDur]
+    grind
+  rw [hd]
+  apply repeatWindows_perm
+  rw [windowsList_append, windowsList_append]
+  simp only [itemsMeas, itemsNodes, Loop.windowsList, leaf_windows, List.map_nil, List.append_nil, rootOf_windows]
+  have e1 : List.map (shiftW (Loop.durationList cs)) (itemsWin I0 0) = itemsWin I0 (Loop.durationList cs) :=
+    (itemsWin_shift I0 _).symm
+  have e2 : (0 : Rat) + Loop.durationList cs = Loop.durationList cs := by grind
+  rw [e1, e2]
+  simp only [itemsWin, List.append_assoc]
+  apply List.Perm.append_left
+  apply List.Perm.append_left
+  exact List.perm_append_comm
+
+/-! ## the observables of two compilation results -/
+
+/-- `P` plays the chain `T` applied (channel `c`) to what `P'` plays; equal durations and windows -/
+def ObsRel (c : Chan) (T : Chain) (P P' : Option Loop) : Prop :=
+  match P, P' with
+  | none, none => True
+  | some P, some P' =>
+      P.duration = P'.duration ∧ P.windows.Perm P'.windows ∧
+      allLeaves (fun x => x.channels.contains c) P =
+        (allLeaves (fun x => x.channels.contains c) P' || Chain.presF T c false) ∧
+      (allLeaves (fun x => x.channels.contains c) P = true → ∀ t, 0 ≤ t → t < P.duration →
+        some (P.sample c t) = Chain.chanF T c
+          (if allLeaves (fun x => x.channels.contains c) P' then some (P'.sample c t) else none))
+  | _, _ => False
+
+theorem obsRel_of_rel (c : Chan) (T : Chain) (I I' : List Item) (h : Rel c T I I') :
+    ObsRel c T (toProgram I) (toProgram I') := by
+  rw [toProgram_eq, toProgram_eq]
+  by_cases hn : itemsNodes I = []
+  · have hn' := h.empty.mp hn
+    simp [hn, hn', ObsRel]
+  · have hn' : itemsNodes I' ≠ [] := fun e => hn (h.empty.mpr e)
+    have e1 : (itemsNodes I).isEmpty = false := by simpa using hn
+    have e2 : (itemsNodes I').isEmpty = false := by simpa using hn'
+    simp only [e1, e2, Bool.false_eq_true, if_false, ObsRel]
+    have p1 : allLeaves (fun x => x.channels.contains c) (rootOf I) = allPres c I := by
+      simp only [rootOf, allLeaves_none, allPres]
+    have p2 : allLeaves (fun x => x.channels.contains c) (rootOf I') = allPres c I' := by
+      simp only [rootOf, allLeaves_none, allPres]
+    refine ⟨by rw [rootOf_duration, rootOf_duration, h.dur], by rw [rootOf_windows, rootOf_windows]; exact h.win,
+      by rw [p1, p2, h.pres], ?_⟩
+    intro hA t h0 ht
+    rw [p1] at hA
+    rw [rootOf_duration] at ht
+    rw [p2, rootOf_sample I c t h0 ht, rootOf_sample I' c t h0 (by rw [← h.dur]; exact ht)]
+    exact h.samp hA t h0 ht
+
+/-! ## the property theorems, for ALL template trees -/
+
+/-- Collapsing any two sets `S`, `S'` of sub-templates into single waveforms: same duration, same measurement
+windows (as multisets), the same channels and the same samples strictly inside `[0, duration)` — for every tree
+outside the classes of PF-11 / PF-04-junction (`cleanW`).  The global transformation of the context (`ctx.trafo`,
+e.g. of an enclosing arithmetic template) is arbitrary. -/
+theorem collapse_invariant_partial (pt : PT) (ctx : Ctx) (S S' : List String) (J I I' : List Item) (c : Chan)
+    (hJ : compile pt { ctx with single := [] } = .ok J) (hnn : nnI J)
+    (hI : compile pt { ctx with single := S } = .ok I) (hI' : compile pt { ctx with single := S' } = .ok I')
+    (hclean : cleanW (S ++ S') (!ctx.trafo.isEmpty) false pt = true)
+    (htI : tidyI c I) (htI' : tidyI c I') :
+    ObsRel c [] (toProgram I) (toProgram I') := by
+  apply obsRel_of_rel
+  have e : ∀ S0 : List String, ({ ctx with trafo := ctx.trafo ++ [], single := S0 } : Ctx) = { ctx with single := S0 } := by
+    intro S0; simp
+  refine (W_all pt).2 ctx ctx.trafo J hJ hnn ctx.trafo [] S S' (S ++ S') I I' c (!ctx.trafo.isEmpty) false
+    (by rw [e]; exact hI) hI' (fun x hx => by simp_all) (fun x hx => by simp_all) ?_ (fun h => absurd rfl h) hclean htI htI'
+  intro hne
+  cases ht : ctx.trafo with
+  | nil => exact absurd ht hne
+  | cons a b => rfl
+
+/-- A global transformation `T` (offset / scaling / parallel-channel chain) yields exactly `T` applied, channel by
+channel and pointwise, to the untransformed output; duration and windows are unchanged — for every tree and every
+`to_single_waveform` set outside the finding classes. -/
+theorem global_trafo_partial (pt : PT) (ctx : Ctx) (T : Chain) (S : List String) (J I I' : List Item) (c : Chan)
+    (hJ : compile pt { ctx with trafo := [], single := [] } = .ok J) (hnn : nnI J)
+    (hI : compile pt { ctx with trafo := T, single := S } = .ok I)
+    (hI' : compile pt { ctx with trafo := [], single := S } = .ok I')
+    (hclean : cleanW S false (!T.isEmpty) pt = true)
+    (htI : tidyI c I) (htI' : tidyI c I') :
+    ObsRel c T (toProgram I) (toProgram I') := by
+  apply obsRel_of_rel
+  refine (W_all pt).2 ctx [] J hJ hnn [] T S S S I I' c false (!T.isEmpty)
+    hI hI' (fun x hx => hx) (fun x hx => hx) (fun h => absurd rfl h) ?_ hclean htI htI'
+  intro hne
+  cases ht : T with
+  | nil => exact absurd ht hne
+  | cons a b => rfl
+
+/-- what every compilation result looks like (all trees, all option sets): no empty loops, repetition counts ≥ 1,
+leaf waveforms of the shapes the lemmas above need, no negative duration -/
+theorem compile_invariants (pt : PT) (ctx : Ctx) (T : Chain) (S : List String) (J I : List Item)
+    (hJ : compile pt { ctx with single := [] } = .ok J) (hnn : nnI J)
+    (hI : compile pt { ctx with trafo := T, single := S } = .ok I) : Inv I :=
+  (W_all pt).1 ctx ctx.trafo J hJ hnn T S I hI
+
+/-! ## non-vacuity -/
+
+/-- the hypotheses are satisfiable: a sequence of two constants, the first one collapsed -/
+example : cleanW (["a"] ++ []) false false
+    (.seq none [.const (some "a") (.lit 1) [("A", .lit 2)] [], .const none (.lit 1) [("A", .lit 3)] []] [] []) = true := by
+  decide
 
 end QP.Props.C05
